@@ -131,7 +131,49 @@ def observer_completeness(ctx, lc, cls, rule="R12.a"):
                 )
     for attr, ws in sorted(missing.items()):
         if attr in entry and all(x.kind in ("entry", "inplace") for x in ws):
-            # DurationObserver idiom: zero + per-key rebinding
+            # DurationObserver idiom: zero + per-key rebinding.  With a
+            # *computed* key (self.a[i] = v inside a loop) the entry-wise
+            # restore only counts when no condition lets an iteration skip it
+            partial = None
+            for rw in wr:
+                if rw.attr != attr or rw.kind != "entry":
+                    continue
+                key_names = set()
+                if rw.key:
+                    try:
+                        key_names = {x.id for x in ast.walk(ast.parse(rw.key, mode="eval")) if isinstance(x, ast.Name)}
+                    except SyntaxError:
+                        key_names = set()
+                local_names = set(ctx.flow.defs(rw.fi).params) | {n_ for n_ in key_names if ctx.flow.defs(rw.fi).of(n_)}
+                if not (key_names & local_names):
+                    continue  # a literal key (FeatureType.X, "name", 0)
+                par = rw.fi.module.parents
+                x, guarded = rw.event.node, None
+                while x in par and x is not rw.fi.node:
+                    p_ = par[x]
+                    if isinstance(p_, (ast.If, ast.Try, ast.While)) and x not in getattr(p_, "orelse", []) or isinstance(p_, ast.If):
+                        guarded = p_
+                    if isinstance(p_, ast.For):
+                        # an earlier `continue` / `break` in the loop body skips the store
+                        for st_ in p_.body:
+                            if st_ is x or any(y is x for y in ast.walk(st_)):
+                                break
+                            if any(isinstance(y, (ast.Continue, ast.Break)) for y in ast.walk(st_)):
+                                guarded = st_
+                    x = p_
+                if guarded is not None:
+                    partial = (rw, guarded)
+            if partial is None:
+                continue
+            rw, g = partial
+            ok = False
+            chk.violation(
+                rule, f"{cls.qualname}.reset", rw.event.node,
+                f"{cls.name}.update changes entries of `self.{attr}` ({ws[0].text} in {ws[0].fi.name}) and reset only overwrites them "
+                f"entry by entry (`{rw.text}` in {rw.fi.name}) under a condition (`{ast.unparse(g).splitlines()[0][:60]}`): the entries the "
+                "condition skips keep the previous episode's values",
+                loc=rw.loc,
+            )
             continue
         w = ws[0]
         ok = False
@@ -619,8 +661,10 @@ def _path_facts(ctx, cls, fn, depth=3, also=()):
     paths of ``fn``; writes inside a loop count once the loop is entered."""
     from .common import resolve_root, decompose
 
+    lc_ = Lifecycle(ctx)
+
     def rel(e):
-        return e.kind in ("write", "branch", "loop")
+        return e.kind in ("write", "branch", "loop", "call")
 
     own = set(cls.mro) | {cls.qualname} | set(also)
 
@@ -652,6 +696,32 @@ def _path_facts(ctx, cls, fn, depth=3, also=()):
                     direct.add(a)
                     for l in stack:
                         loop_writes.setdefault(l, set()).add(a)
+                    # a flag set to a constant: the state the path leaves behind
+                    val = getattr(ev.node, "value", None)
+                    if len(chain) == 1 and ev.data.get("op") == "assign" and isinstance(val, ast.Constant) and isinstance(val.value, bool) and not stack:
+                        atoms[f"=self.{a}"] = val.value
+            elif ev.kind == "call":
+                # a callee (not inlined) that mutates its receiver / an
+                # argument reachable from an attribute of self:
+                # self.graph.remove_node(n), helper(self.graph, ...)
+                for t in ev.data.get("targets") or []:
+                    if isinstance(t.node, ast.Lambda) or inline_filter(t):
+                        continue
+                    rc = eng._callee_recv(ev, t, ev.frame)
+                    for i in lc_.mutated_params(t, rc):
+                        arg = lc_._arg_expr(ev, t, i)
+                        if arg is None:
+                            continue
+                        from ..paths import chain_of as _chain_of
+
+                        r0, c0 = _chain_of(arg)
+                        if r0 is None:
+                            continue
+                        root, chain, fr = resolve_root(ev, r0, c0)
+                        if root == selfname and chain and fr is not None and fr.parent is None and not str(chain[0]).endswith("()"):
+                            direct.add(chain[0])
+                            for l in stack:
+                                loop_writes.setdefault(l, set()).add(chain[0])
             elif ev.kind == "branch" and _entry_self(ev.frame):
                 text = lambda n, _f=ev.fi: ctx.norm.xtext(_f, n)  # noqa: E731
                 for a, v in decompose(ev.node, ev.data["taken"], text):
@@ -693,7 +763,11 @@ def path_reset_cover(ctx, cls, upd, rst, rule, label, skip=(), also=()):
             if any(f"self.{attr}" in t or f".{attr}" in t for t in ratoms):
                 continue
             for _, uatoms, up in writers:
-                if all(ratoms.get(t, v) == v for t, v in uatoms.items()):
+                # a reset path taken only when a flag has the value that this
+                # update path just overwrote with the opposite is not reachable after it
+                if any(("=" + t) in uatoms and uatoms["=" + t] != v for t, v in ratoms.items()):
+                    continue
+                if all(ratoms.get(t, v) == v for t, v in uatoms.items() if not t.startswith("=")):
                     conds = [f"{t} is {v}" for t, v in ratoms.items()] or ["(an early exit in an inlined callee)"]
                     last = rp.events[-1] if rp.events else None
                     chk.violation(
